@@ -3,4 +3,4 @@ from . import _common
 
 
 def run(out):
-    _common.run(out, 'C09', x=[], s_props=['C09'])
+    _common.run(out, 'C09', x=[dict(fn=progs3.c09_corpus, name='c09', compile_violation=True, compile_only=True)], s_props=['C09'])
